@@ -109,7 +109,7 @@ def truthy : Option String → Bool
 def isMulti (n : RawNode) : Bool := n.nodeType == some "MultiAttachment"
 
 /-- element, atom type and label by `NodeType` (`none` = the parser raises) -/
-def nodeKind (n : RawNode) (z0 : Nat) : Option (Nat × Nat × Option String) :=
+def nodeKind (n : RawNode) (z0 : Int) : Option (Nat × Nat × Option String) :=
   let lbl := n.atomNumber
   match n.nodeType with
   | some "ExternalConnectionPoint" =>
@@ -122,11 +122,16 @@ def nodeKind (n : RawNode) (z0 : Nat) : Option (Nat × Nat × Option String) :=
     match n.unspecText with
     | none => none            -- `node.find("./t/s")` is None: AttributeError
     | some t => some (zUnknown, atAttachmentPoint, if t.isEmpty then none else some t)
-  | _ => some (z0, atRegular, lbl)
+  | _ =>
+    -- only here the number has to name an element (`Atom(element=int)`)
+    match z0 with
+    | .ofNat z => if z > zMax then none else some (z, atRegular, lbl)
+    | .negSucc _ => none
 
 /-- `_parse_atom_node` -/
 def mkAtom (n : RawNode) : Option MAtom :=
-  let z0? : Option Nat := if truthy n.element then pyNat? (n.element.getD "") else some zCarbon
+  -- `int(elt) if elt else "C"`: the attribute must be an integer literal, whatever the node type
+  let z0? : Option Int := if truthy n.element then pyInt? (n.element.getD "") else some (Int.ofNat zCarbon)
   let iso? : Option (Option Int) := match n.isotope with
     | none => some none
     | some s => (pyInt? s).map some
@@ -140,7 +145,6 @@ def mkAtom (n : RawNode) : Option MAtom :=
   let implicitH? : Option (Option Int) := if truthy n.numH then (pyInt? (n.numH.getD "")).map some else some none
   match z0?, iso?, charge?, implicitH? with
   | some z0, some iso, some charge, some implicitH =>
-    if z0 > zMax then none else
     match nodeKind n z0 with
     | some (z, atype, label) => some { z, isotope := iso, label, atype, charge, spin, implicitH }
     | none => none
